@@ -20,6 +20,7 @@ import concurrent.futures as cf
 import copy
 import json
 import os
+import shutil
 import vlib
 from vlib import Ctx, run_tlc, build_harness, run_bin, parse_jsonl, SPEC, ToolError, log
 
@@ -48,6 +49,7 @@ THOROUGH_MC = [
     ("t_hb", "Dev={} 2 clients, pool 2, heartbeat", "ok", None),
     ("t_aswritten", "as written, 2 clients, 2 workers, bc replies: dispatch + delivery", "ok", None),
     ("t_aswritten_n1", "as written, 1 worker, 2 clients x <=2 msgs: all properties", "ok", None),
+    ("t_c3", "Dev={} 3 clients connect/close/vanish, greeting + departure broadcast", "ok", None),
     ("t_live", "liveness with 2 clients", "ok", None),
 ]
 MUST_VIOLATE = [
@@ -61,14 +63,21 @@ MUST_VIOLATE = [
 ]
 
 
+def jtmp():
+    """TLC unpacks its standard modules into java.io.tmpdir: keep that under .work/C12, not /tmp"""
+    d = os.path.join(vlib.workdir("C12"), "jtmp%d" % os.getpid())
+    os.makedirs(d, exist_ok=True)
+    return {"_JAVA_OPTIONS": "-Djava.io.tmpdir=" + d}
+
+
 def mc(name, workers, coverage, timeout):
     return run_tlc("MC_WsAsyncApp.tla", "MC_WsAsyncApp_%s.cfg" % name, D, workers=workers, coverage=coverage,
-                   timeout=timeout, work_id="c12-" + name)
+                   timeout=timeout, work_id="c12-" + name, env=jtmp())
 
 
 def trace_tlc(path, aswritten, tag):
     cfg = "Trace_WsAsyncApp_aswritten.cfg" if aswritten else "Trace_WsAsyncApp.cfg"
-    return run_tlc("Trace_WsAsyncApp.tla", cfg, D, workers=1, env={"TRACE": path}, timeout=1500,
+    return run_tlc("Trace_WsAsyncApp.tla", cfg, D, workers=1, env=dict(jtmp(), TRACE=path), timeout=1500,
                    work_id="c12-tr-" + tag, deque=True, heap="3g")
 
 
@@ -93,6 +102,7 @@ def rejected_of(t):
 
 
 def validate_batches(ctx, batches, counters, tag="tr"):
+    tag = "%s%d" % (tag, os.getpid())
     """Trace-validate several batches [(origin, runs)] at once. Dev={} first (all chunks concurrently);
     the rejected runs are re-examined with the pool as written in one more TLC run.
     Returns {origin: (accepted, attributed, violations)}."""
@@ -191,7 +201,7 @@ def nontrivial(run):
 
 def gen(cfg, simulate=None, depth=None, tag="gen", seed_val=None):  # noqa
     return run_tlc("Gen_WsAsyncApp.tla", cfg, D, workers=1, simulate=simulate, depth=depth, seed_val=seed_val,
-                   timeout=1500, work_id="c12-" + tag, heap="3g")
+                   timeout=1500, work_id="c12-" + tag, heap="3g", env=jtmp())
 
 
 def replay_and_judge(ctx, binp, behaviours, origin, counters, strict):
@@ -346,7 +356,7 @@ def selftest(ctx, binp, good_runs, behaviours):
             mutate(name, f)
         except StopIteration:
             pass
-    p = os.path.join(wd, "selftest.ndjson")
+    p = os.path.join(wd, "selftest%d.ndjson" % os.getpid())
     vlib.write_lines(p, [e for _, r in muts for e in r])
     t = trace_tlc(p, True, "self")
     os.remove(p)
@@ -373,6 +383,13 @@ def selftest(ctx, binp, good_runs, behaviours):
 
 
 def run(tier, replay):
+    try:
+        return run_inner(tier, replay)
+    finally:
+        shutil.rmtree(os.path.join(vlib.workdir("C12"), "jtmp%d" % os.getpid()), ignore_errors=True)
+
+
+def run_inner(tier, replay):
     ctx = Ctx("C12", tier, "model_checking")
     bindir = build_harness(["wsasync"])
     binp = os.path.join(bindir, "wsasync")
